@@ -4,7 +4,9 @@
     A / D / R records executed on the interpreter's own rack state), starting from the labware's initial
     contents, gives every well the volume the Labware objects report, and every record addresses the rack
     and the device-specific well number of the well the operation named.
-    Statements only; proofs live in Proofs/RefinementProofs.v.
+    Statements only; proofs live in Proofs/RefinementProofs.v (records, addressing, composition),
+    Proofs/RefinementTextProofs.v (the rendered worklist, composition after distribute) and
+    Proofs/RefinementExtraProofs.v (checked replay, the refuted composition clause, Fluent and float examples).
 
     Definitions used (Proofs/RefinementProofs.v):
     [rack_sim L r]: rack [r] has the name, geometry, min and max of labware [L] and [Forall2 Qeq] volumes
@@ -340,14 +342,11 @@ Example C01_example_composition :
   end.
 Proof. vm_compute. repeat split; reflexivity. Qed.
 
-(** (note kept from the previous state of this file; SUPERSEDED by "composition after distribute" below)
-    C01_composition for [distribute] — NOT PROVED.  Wanted: [csim] (volumes and compositions) after an accepted
-    [distribute], hence [C01_composition_run] for programs of OTransfer and ODistribute.  The volume part is
-    [C01_distribute]; for the compositions the R record dispenses in ascending position order while the tracking
-    adds in the order of the destination ids, and several positions of a destination trough address the same
-    real well, so the lock-step argument of [C01_composition_exec_step] does not apply directly: missing is the
-    closed form (V f_k + n v g_k) / (V + n v) after n additions of the same liquid to a well (on both sides),
-    which makes the result independent of the order. *)
+(** C01_composition for [distribute] is PROVED in the last section of this file ("composition after distribute":
+    [C01_composition_distribute], [C01_composition_run_distribute]).  The R record dispenses in ascending
+    position order while the tracking adds in the order of the destination ids, and several positions of a
+    destination trough address the same real well; the closed form (V f_k + n v g_k) / (V + n v) after n
+    additions of the same liquid to a well ([C01_closed_step]) makes the result independent of the order. *)
 
 
 (* ================================================================== the rendered worklist (C01_rendered) *)
@@ -360,12 +359,22 @@ Proof. vm_compute. repeat split; reflexivity. Qed.
     [rec_valid r]: the hypotheses of C09_roundtrip_AD / C09_roundtrip_R / C09_roundtrip_simple for [r]
       (no separator in a text field, non-negative position / volume / counts, wash scheme 1..4, no script command);
     [cents_ok r]: the volume of an A / D record is a multiple of 1/100; [r_int r]: the volume of an R record is an int;
+    [r_num r]: the volume of an R record is an int or a float [PyF q] with [0 <= q] and the reduced denominator of
+      [q] a power of two (every Python float is such a dyadic rational); [r_int r -> r_num r];
+    [srec_near e r r']: [r'] is [r] up to [e] in the volume of an A / D record; for an R record all fields but the
+      volume agree and the volumes have the same value ([pynum_q v == pynum_q (r_volume f)]; an int stays that int);
     [rack_eqv r r']: same name, geometry, limits, [Forall2 Qeq] volumes (= [rack_sim] between two racks);
     [hit_ad d names geoms label p k j]: label finds rack number [k] and position [p] is real well [j] of it;
     [hits d names geoms recs k j]: number of A / D records of [recs] that address real well [j] of rack [k];
     [racks_near E rs rs']: same names and geometries, same limits, |volume' - volume| <= E k j for well j of rack k;
-    [op_text_ok o]: the volume of a distribute call is an int (a float volume is written as Python's repr and is
-      outside [r_int]).  Nothing is asked of the DiTi index of set_diti or of diti_reuse / multi_disp of
+    [op_text_ok o]: the volume of a distribute call is an int or a float [RVFloat (XQ q)] with [q] dyadic (REVIEW2
+      N1: the float case used to be excluded).  A float volume is written as its exact terminating decimal
+      expansion ([pyrepr_float]) and [pynum_of_text] reads it back to a number of the same value, so the replay
+      of the text is exact.  CAVEAT (see Props/C09.v, "float printer"): Python writes the SHORTEST round-trip
+      notation; the two texts coincide when the exact expansion has at most 15 significant digits (the harness
+      grid k/2^e, e <= 10); for e.g. 0.1 the library's text "0.1" denotes 1/10, which differs from the float by
+      5.6e-18, and these theorems are then about the model's text only.
+      Nothing is asked of the DiTi index of set_diti or of diti_reuse / multi_disp of
       distribute any more: the methods reject negative values (fixed in /repo by commit 26768d9, finding F21),
       so an accepted call has non-negative ones and a rejected call appends nothing. *)
 
@@ -399,6 +408,18 @@ Theorem C01_rendered_record_R : forall f : rfields, rc_r_nosep f -> rc_r_nonneg 
 Proof. exact rendered_R. Qed.
 Print Assumptions C01_rendered_record_R.
 
+(** ... and when it is a float (non-negative dyadic rational) the number read back has the same VALUE: the
+    model prints the exact terminating expansion, [pynum_of_text] sums its digits (printer caveat: header) *)
+Theorem C01_rendered_record_R_float : forall (f : rfields) q k, rc_r_nosep f -> rc_r_nonneg f ->
+  r_volume f = PyF q -> 0 <= q -> Npos (Qden (Qred q)) = (2 ^ N.of_nat k)%N ->
+  exists v, read_line (render (RR f)) = Some (RR (set_r_volume f v)) /\ pynum_q v == q.
+Proof. exact rendered_R_float. Qed.
+Print Assumptions C01_rendered_record_R_float.
+
+Theorem C01_r_int_num : forall r, r_int r -> r_num r.
+Proof. exact r_int_num. Qed.
+Print Assumptions C01_r_int_num.
+
 (** C01_rendered_record, W / WD / F / B / C / S: read back as themselves *)
 Theorem C01_rendered_record_simple :
   read_line (render (RW None)) = Some (RW None) /\
@@ -424,9 +445,10 @@ Theorem C01_rendered_records_exact : forall recs,
 Proof. exact rendered_records_exact. Qed.
 Print Assumptions C01_rendered_records_exact.
 
-(** C01_rendered_exact: ... and executing the file gives the robot that executing the records gives *)
+(** C01_rendered_exact: ... and executing the file gives the robot that executing the records gives
+    (R volumes: ints or dyadic floats, [r_num]) *)
 Theorem C01_rendered_exact : forall d rb recs rb1,
-  Forall rec_valid recs -> Forall r_int recs -> Forall cents_ok recs ->
+  Forall rec_valid recs -> Forall r_num recs -> Forall cents_ok recs ->
   interp false d rb recs = Some rb1 ->
   exists rb1', interp_text false d rb (map render recs) = Some rb1' /\
                Forall2 rack_eqv (rb_racks rb1) (rb_racks rb1').
@@ -436,7 +458,7 @@ Print Assumptions C01_rendered_exact.
 (** C01_rendered_bound: without the two-decimals hypothesis every well of the robot that executed the file is
     within n / 200 of the robot that executed the records, n = number of A / D records addressing the well *)
 Theorem C01_rendered_bound : forall d rb recs rb1,
-  Forall rec_valid recs -> Forall r_int recs ->
+  Forall rec_valid recs -> Forall r_num recs ->
   interp false d rb recs = Some rb1 ->
   exists rb1', interp_text false d rb (map render recs) = Some rb1' /\
     racks_near (fun k j => inject_Z (Z.of_nat
@@ -455,15 +477,16 @@ Theorem C01_interp_near : forall e d, 0 <= e -> forall recs recs', Forall2 (srec
 Proof. exact interp_near. Qed.
 Print Assumptions C01_interp_near.
 
-(** the records of a program of worklist calls are valid *)
+(** the records of a program of worklist calls are valid; the R records have int or dyadic float volumes *)
 Theorem C01_run_records_valid : forall s ops,
   w_recs (st_wl s) = [] -> forallb wl_op ops = true -> Forall op_text_ok ops ->
-  Forall rec_valid (w_recs (st_wl (fst (run s ops)))) /\ Forall r_int (w_recs (st_wl (fst (run s ops)))).
+  Forall rec_valid (w_recs (st_wl (fst (run s ops)))) /\ Forall r_num (w_recs (st_wl (fst (run s ops)))).
 Proof. exact run_records_valid. Qed.
 Print Assumptions C01_run_records_valid.
 
 (** with C01_run: executing the TEXT of the worklist of a program reproduces the tracked volumes exactly
-    whenever all pipetted volumes have at most two decimals ... *)
+    whenever all A / D volumes have at most two decimals (a distribute may have an int or a float volume,
+    [op_text_ok]: its R record is not rounded and reads back to the same value) ... *)
 Theorem C01_run_text_exact : forall s0 ops,
   good_state s0 -> w_recs (st_wl s0) = [] ->
   forallb wl_op ops = true -> Forall (op_ok s0) ops -> Forall op_text_ok ops ->
@@ -504,9 +527,9 @@ Proof. exact run_refines_checked. Qed.
 Print Assumptions C01_run_checked.
 
 (** ... executing the text with the checks gives the robot that executing the records with the checks gives
-    (two decimals, int R volumes) ... *)
+    (two decimals in A / D volumes, int or dyadic float R volumes) ... *)
 Theorem C01_rendered_exact_checked : forall d rb recs rb1,
-  Forall rec_valid recs -> Forall r_int recs -> Forall cents_ok recs ->
+  Forall rec_valid recs -> Forall r_num recs -> Forall cents_ok recs ->
   interp true d rb recs = Some rb1 ->
   exists rb1', interp_text true d rb (map render recs) = Some rb1' /\
                Forall2 rack_eqv (rb_racks rb1) (rb_racks rb1').
@@ -538,7 +561,7 @@ Example C01_example_text_hyps :
 Proof.
   split.
   - unfold C01_ex_prog. repeat (apply Forall_cons || apply Forall_nil); try exact I.
-    cbn. eexists. reflexivity.
+    cbn. left. eexists. reflexivity.
   - set (recs := w_recs _). vm_compute in recs. subst recs.
     repeat (apply Forall_cons || apply Forall_nil); cbn [cents_ok ad_volume]; try exact I;
       match goal with |- exists z, ?v * 100 == _ => exists (Qnum (Qred (v * 100))); vm_compute; reflexivity end.
@@ -600,6 +623,37 @@ Example C01_example_fluent_run :
      "A;big;;;1;;950.00;;;;"; "D;big;;;4;;950.00;;;;"; "F;"; "B;"; "B;"]%string /\
   map lw_vols (st_lw (fst r)) = [[2207 # 2; 87 # 2; 153; 1916]; [895 # 2; 901 # 2]] /\
   match interp_text true Fluent (robot_of (st_lw (ex_state Fluent))) (map render (w_recs (st_wl (fst r)))) with
+  | Some rb => map (fun r0 => map Qred (rk_vols r0)) (rb_racks rb) = map lw_vols (st_lw (fst r))
+  | None => False
+  end.
+Proof. vm_compute. repeat split; reflexivity. Qed.
+
+(** FLOAT distribute volumes (REVIEW2 N1): a transfer, a distribute of the float 12.5 to two plate wells, a
+    distribute of the float 2^-10 to one well.  All hypotheses of C01_run_text_exact / _checked hold ... *)
+Definition C01_ex_prog_float : list op :=
+  [OTransfer 0 (A1 ["A01"%string]) 0 (A1 ["A02"%string]) (A1 [100]) None SFlush "auto"%string kw_default;
+   ODistribute 1 0 (A1 ["A02"; "B02"]%string) (ex_dargs_f 0 (25 # 2));
+   ODistribute 1 0 (A1 ["B01"%string]) (ex_dargs_f 1 (1 # 1024));
+   OCommit].
+
+Example C01_example_float_hyps :
+  good_state (ex_state Evo) /\ w_recs (st_wl (ex_state Evo)) = [] /\
+  forallb wl_op C01_ex_prog_float = true /\ Forall (op_ok (ex_state Evo)) C01_ex_prog_float /\
+  Forall op_text_ok C01_ex_prog_float /\
+  Forall (fun e => e = None) (snd (run (ex_state Evo) C01_ex_prog_float)) /\
+  Forall cents_ok (w_recs (st_wl (fst (run (ex_state Evo) C01_ex_prog_float)))).
+Proof. exact float_prog_hyps. Qed.
+
+(** ... and, as a computation: the R records carry "12.5" and "0.0009765625" (never rounded to two decimals);
+    the file, replayed with the limit checks, gives the tracked volumes exactly *)
+Example C01_example_float_run :
+  let r := run (ex_state Evo) C01_ex_prog_float in
+  snd r = [None; None; None; None] /\
+  map render (w_recs (st_wl (fst r))) =
+    ["A;big;;;1;;100.00;;;;"; "D;big;;;3;;100.00;;;;"; "F;";
+     "R;T4;;;1;4;big;;;3;4;12.5;W;1;1;0"; "R;T4;;;5;8;big;;;2;2;0.0009765625;W;1;1;0"; "B;"]%string /\
+  map lw_vols (st_lw (fst r)) = [[2900; 225 # 2; 102401 # 1024; 25 # 2]; [475; 511999 # 1024]] /\
+  match interp_text true Evo (robot_of (st_lw (ex_state Evo))) (map render (w_recs (st_wl (fst r)))) with
   | Some rb => map (fun r0 => map Qred (rk_vols r0)) (rb_racks rb) = map lw_vols (st_lw (fst r))
   | None => False
   end.
